@@ -53,7 +53,7 @@ ASSUMPTIONS = [
 REQUIRED = {'cases_judged': 300, 'blocks_stop_checked': 3000, 'start_failures': 20,
             'terminated_during_async_init': 20, 'second_cause_during_cleanup': 20,
             'cleanup_faults': 20, 'sigterm_cases': 5, 'cancel_run_cases': 5,
-            'stop_data_last_checked': 300, 'restart_refused': 300, 'modify_refused': 300,
+            'stop_data_last_checked': 300, 'stop_data_cancelled_running_job': 100, 'restart_refused': 300, 'modify_refused': 300,
             'async_before_sync_checked': 200, 'stop_orders': 3}
 SHARDS = {'quick': 16, 'thorough': 16}
 TIMEOUT = {'quick': 300, 'thorough': 3000}
@@ -189,6 +189,27 @@ def build_circuit(edzed, case, hist, state):
         objs['oa'] = edzed.OutputAsync('oa', coro=coro, mode='w', stop_data={'value': 'STOP'},
                                        on_error=None, stop_timeout=5)
     makers.append(mk_oa)
+
+    def mk_oc():
+        core.perturb_addresses(rng, keep)
+
+        async def coro(value):
+            hist.log('oc_start', value)
+            await asyncio.sleep(0.5 if value == 'STOP' else 30.0)
+            hist.log('oc_end', value)
+
+        def retry_once(data):
+            # retry arrangement: a cancelled 'job' is queued again (once, under another name)
+            if data['put'].get('value') == 'job':
+                return {'value': 'job-retry'}
+            return False
+        # 'cancel' mode: a new item cancels the running job; the long job is still running
+        # when the simulation ends, stop_data cancels it and the block's own on_cancel event
+        # puts a new item into the block whose stop() was already called
+        objs['oc'] = edzed.OutputAsync('oc', coro=coro, mode='c', stop_data={'value': 'STOP'},
+                                       on_error=None, stop_timeout=5,
+                                       on_cancel=edzed.Event('oc', 'put', efilter=retry_once))
+    makers.append(mk_oc)
 
     def lib():
         core.perturb_addresses(rng, keep)
@@ -354,6 +375,7 @@ def run_case(case, ctx):
                 try:
                     edzed.ExtEvent(objs['of']).send('work')
                     edzed.ExtEvent(objs['oa']).send('job')
+                    edzed.ExtEvent(objs['oc']).send('job')
                     edzed.ExtEvent(objs['inp']).send(9)
                 except Exception as err:    # pylint: disable=broad-except
                     hist.log('traffic_refused', repr(err)[:60])
@@ -542,6 +564,18 @@ def judge(case, hist, state, res, ctx):
             raise core.Violation('stop-data-not-completed', f"{where}: OutputAsync stop_data run cut")
     elif 'STOP' in oa_calls:
         raise core.Violation('stop-data-without-start', f"{where}: OutputAsync runs {oa_calls}")
+    oc_calls = [e[3] for e in E if e[2] == 'oc_start']
+    if started.get('oc'):
+        if oc_calls.count('STOP') != 1 or oc_calls[-1] != 'STOP':
+            raise core.Violation('stop-data-not-last',
+                                 f"{where}: OutputAsync (cancel mode) runs {oc_calls} (block was started)")
+        if not any(e[2] == 'oc_end' and e[3] == 'STOP' for e in E):
+            raise core.Violation('stop-data-not-completed',
+                                 f"{where}: OutputAsync (cancel mode) stop_data run cut")
+        if 'job' in oc_calls:
+            ctx.count('stop_data_cancelled_running_job')
+    elif 'STOP' in oc_calls:
+        raise core.Violation('stop-data-without-start', f"{where}: OutputAsync runs {oc_calls}")
     # ---- L6 ----
     if res['restart'] != 'refused':
         raise core.Violation('finished-circuit-restarted', f"{where}: run_forever() again: {res['restart']}")
